@@ -7,7 +7,8 @@
       8   the objects alive at the end differ, or the model holds an unreachable one (tie)
      16   the allocator returned an address the model considers live                 (tie)
       2   PROPERTY: a disciplined history whose observed outputs differ from the uncached
-          reference semantics
+          reference semantics (the reference machine knows no addresses: this does not depend on
+          the model's view of the allocator)
      32   (information) observed outputs differ from the reference semantics at all *)
 From Coq Require Import ZArith List Bool Arith.
 From BPGen Require Import GenMemo.
@@ -17,10 +18,16 @@ Open Scope Z_scope.
 
 Definition D_case : nat := 64.
 
+(* model vs observed: an observation AExec matches a miss or a direct call *)
+Definition aux_match (m o : aux) : bool :=
+  match o with
+  | AExec => match m with AMiss | ADirect => true | _ => false end
+  | _ => aux_eqb m o
+  end.
 Fixpoint auxs_eqb (l l' : list aux) : bool :=
   match l, l' with
   | [], [] => true
-  | x :: t, y :: t' => aux_eqb x y && auxs_eqb t t'
+  | x :: t, y :: t' => aux_match x y && auxs_eqb t t'
   | _, _ => false
   end.
 
@@ -39,7 +46,7 @@ Definition memo_case (h : list op) (io : list (out * aux)) (alive : list Z) : Z 
   (if auxs_eqb (map snd cr) (map snd io) then 0 else 4) +
   (if same_set (live_addrs fin) alive && match leftovers fin with [] => true | _ => false end then 0 else 8) +
   (if envok then 0 else 16) +
-  (if negb (disc && envok) || same_ref then 0 else 2) +
+  (if negb disc || same_ref then 0 else 2) +
   (if same_ref then 0 else 32).
 
 (* truth-table rows observed on the real functions *)
